@@ -13,7 +13,8 @@
 (***************************************************************************)
 EXTENDS LiskBFT, Json, SequencesExt
 
-CONSTANTS Byz,          \* set of Byzantine validators
+CONSTANTS Win,          \* vote window length (3 * batch size)
+          Byz,          \* set of Byzantine validators
           InitW,        \* initial weights: sequence over Validators
           InitPCT,      \* initial precommit threshold
           ParamChoices, \* sequence of [pcT, certT, w] a block may switch to (may be empty)
@@ -29,7 +30,7 @@ vars == <<blocks, tip, maxGen>>
 Honest == Validators \ Byz
 
 Genesis ==
-  LET v0 == GenesisVotes(0)
+  LET v0 == GenesisVotes(0, Win)
       v1 == SetParams(v0, InitPCT, InitPCT, InitW)
   IN [id |-> <<>>, h |-> 0, gen |-> 0, mhg |-> 0, mhp |-> 0, chg |-> 0, votes |-> v1]
 
